@@ -12,4 +12,14 @@ VERIF_EVIDENCE_DIR=/tmp/seed-evidence-$id VERIF_REPO=$wt bin/check "$prop" --tie
 git -C /repo worktree remove --force "$wt"; git -C /repo worktree prune
 echo "seeded $id property=$prop tier=$tier rc=$rc  $(grep -c '^VIOLATION' /tmp/seedcheck-$id.log) violation lines  (log /tmp/seedcheck-$id.log)"
 grep -A1 '^VIOLATION' "/tmp/seedcheck-$id.log" | head -8
+python3 - "$id" "$prop" "$tier" "$rc" "/tmp/seedcheck-$id.log" <<'PY'
+import json,sys,re,subprocess,time
+id_,prop,tier,rc,log=sys.argv[1:6]
+sigs=re.findall(r"^  signature: (.*)$", open(log,errors="replace").read(), re.M)
+head=subprocess.run(["git","-C","/verif","rev-parse","--short","HEAD"],capture_output=True,text=True).stdout.strip()
+repo=subprocess.run(["git","-C","/repo","rev-parse","--short","HEAD"],capture_output=True,text=True).stdout.strip()
+json.dump({"seeded":id_,"property":prop,"tier":tier,"check_exit":int(rc),"caught":int(rc)==1,"violation_signatures":sigs[:12],
+           "verif_commit":head,"repo_commit":repo,"when":time.strftime("%Y-%m-%dT%H:%M:%SZ",time.gmtime())},
+          open("/verif/seeded/%s/result.json"%id_,"w"),indent=1)
+PY
 [ $rc -eq 1 ] && exit 0 || exit 1
